@@ -31,6 +31,7 @@ type Workload struct {
 	Every   int    `json:"every"` // record every k-th step (all steps are executed)
 	Mixed   bool   `json:"mixed"` // transactions of varying size, some as two-table Additions (no auto-compaction of their own)
 	Seed    int64  `json:"seed"`
+	Observer bool  `json:"observer"` // a second handle that looks at the stack between an Add and its AutoCompact and calls AutoCompact later, out of date
 	SameObj bool   `json:"sameobj"` // every ref points at ONE object: its object-index record outgrows a block (position list omitted)
 }
 
@@ -96,6 +97,14 @@ func runWorkload(w Workload) Out {
 		panic(err)
 	}
 	defer st.Close()
+	var obs *reftable.Stack
+	obsAge := -1
+	if w.Observer && w.Split {
+		if obs, err = reftable.NewStack(dir, cfg); err != nil {
+			panic(err)
+		}
+		defer obs.Close()
+	}
 	pad := ""
 	for len(pad) < w.NameLen {
 		pad += "x"
@@ -188,6 +197,12 @@ func runWorkload(w Workload) Out {
 				ev["res"], ev["err"] = "other", err.Error()
 			}
 			sizes := reftable.VerifTableSizes(st)
+			if obs != nil && obsAge < 0 && n%4 == 1 {
+				// the observer refreshes its view now: the new table is in, the compaction it may call for is not done yet
+				if reftable.VerifReload(obs) == nil {
+					obsAge = 0
+				}
+			}
 			if w.Split {
 				ev["sizes"] = sizes
 				if err := st.AutoCompact(); err != nil {
@@ -210,6 +225,33 @@ func runWorkload(w Workload) Out {
 		}
 		if w.Every <= 1 || n%w.Every == 0 || n <= 40 || ev["res"] != "ok" {
 			out.Events = append(out.Events, ev)
+		}
+		if obs != nil && obsAge >= 0 {
+			obsAge++
+			if obsAge == 3 {
+				// AutoCompact through the observer, whose view is three transactions (and their compactions) old: if it is out of
+				// date nothing may happen - the range it would pick was chosen for sizes that are no longer there
+				before, _ := realos.ReadFile(dir + "/tables.list")
+				utd, _ := obs.UpToDate()
+				sev := map[string]interface{}{"op": "staleauto", "n": n, "stale": !utd, "res": "ok", "changed": false}
+				func() {
+					defer func() {
+						if p := recover(); p != nil {
+							sev["res"], sev["err"] = "panic", fmt.Sprint(p)
+						}
+					}()
+					if err := obs.AutoCompact(); err != nil && err != reftable.ErrLockFailure {
+						sev["res"], sev["err"] = "other", err.Error()
+					}
+				}()
+				after, _ := realos.ReadFile(dir + "/tables.list")
+				sev["changed"] = string(before) != string(after)
+				out.Events = append(out.Events, sev)
+				obsAge = -1
+				if string(before) != string(after) {
+					reftable.VerifReload(st) // (only after a wrong answer: let the writer go on)
+				}
+			}
 		}
 	}
 	return out
